@@ -6,6 +6,10 @@
 (*   lab n | i0 (nop) | i1n v (ld8 v) | i1l n (ld16 label) | i1r r (mov r) *)
 (*   | dat v w (.byte v, w) | i1c v (ld8 'c', c the character with code v) *)
 (*   | str (.cstr "a\"b", a string with an escaped quote)                  *)
+(*   | brx n (bra n + 1: a relative branch whose operand is an expression  *)
+(*     with blanks of the statement's style around its operator)            *)
+(*   | ldo (ldo [a + 2]: an indirect register with an offset; the register *)
+(*     name inside the brackets follows the style's letter case)           *)
 (*   | strg (.cstr "glob1: b", a string that repeats the spelling of the    *)
 (*     label g1 with its colon)                                            *)
 (*   | cif n v w (a conditional block on five lines: #if MODE == fast or   *)
@@ -36,7 +40,7 @@ St(k, n, v, w) == [k |-> k, n |-> n, v |-> v, w |-> w]
 Sy(case, sep, com, place) == [case |-> case, sep |-> sep, com |-> com, place |-> place]
 \* case: "lo" "up" "mi"; sep: "s1" "s3" "tab" "ts"; com: "none" "plain" "quotes"; place: "own" "join" "blank"
 
-IsInstr(s) == s.k \in {"i0", "i1n", "i1l", "i1r", "i1c"}
+IsInstr(s) == s.k \in {"i0", "i1n", "i1l", "i1r", "i1c", "brx", "ldo"}
 \* joining: an instruction may share a line with the previous instruction, and any statement with a previous label
 IsPre(s) == s.k \in {"cif", "def", "ifd", "cel"}            \* preprocessor statements always start a line
 CanJoin(prev, s) == ~IsPre(s) /\ ((prev.k = "lab" /\ s.k # "lab") \/ (IsInstr(prev) /\ IsInstr(s)))
@@ -69,6 +73,9 @@ StmtItems(s, y, j) ==
       [] s.k = "i1l" -> <<It("MN", "ld16", y.case), It("BL", y.sep, ""), It("REF", s.n, "")>>
       [] s.k = "i1r" -> <<It("MN", "mov", y.case), It("BL", y.sep, ""), It("REG", s.n, y.case)>>
       [] s.k = "i1c" -> <<It("MN", "ld8", y.case), It("BL", y.sep, ""), It("CHR", "", s.v)>>
+      [] s.k = "brx" -> <<It("MN", "bra", y.case), It("BL", y.sep, ""), It("REF", s.n, ""), It("BL", y.sep, ""), It("PLUS", "", ""), It("BL", y.sep, ""), It("NUM", "", 1)>>
+      [] s.k = "ldo" -> <<It("MN", "ldo", y.case), It("BL", y.sep, ""), It("LBR", "", ""), It("REG", "a", y.case), It("BL", y.sep, ""), It("PLUS", "", ""),
+                          It("BL", y.sep, ""), It("NUM", "", 2), It("RBR", "", "")>>
       [] s.k = "str" -> <<It("DIR", ".cstr", ""), It("BL", y.sep, ""), It("STR", "", 0)>>
       [] s.k = "strg" -> <<It("DIR", ".cstr", ""), It("BL", y.sep, ""), It("STRL", "", 0)>>
       [] OTHER       -> <<It("DIR", ".byte", ""), It("BL", y.sep, ""), It("NUM", "", s.v), It("COMMA", y.sep, ""), It("NUM", "", s.w)>>
@@ -90,7 +97,7 @@ Render(p, c) == RenderFrom(p, c, 1) \o <<It("NL", "", "")>>
 Flush(z) == IF z.cur = <<>> THEN z ELSE [z EXCEPT !.out = Append(@, z.cur), !.cur = <<>>]
 Norm(it) == CASE it.t = "MN" -> <<"MN", it.a>> [] it.t = "REG" -> <<"REG", it.a>> [] it.t = "NUM" -> <<"NUM", it.b>>
               [] it.t = "CHR" -> <<"CHR", it.b>> [] it.t = "STR" -> <<"STR", 0>> [] it.t = "STRL" -> <<"STRL", 0>>
-              [] it.t \in {"SYM", "OP", "WORD"} -> <<it.t, it.a>> [] it.t = "DSYM" -> <<"DSYM", it.b>>
+              [] it.t \in {"SYM", "OP", "WORD"} -> <<it.t, it.a>> [] it.t \in {"PLUS", "LBR", "RBR"} -> <<it.t, "">> [] it.t = "DSYM" -> <<"DSYM", it.b>>
               [] it.t = "REF" -> <<"REF", it.a>> [] it.t = "LAB" -> <<"LAB", it.a>> [] it.t = "DIR" -> <<"DIR", it.a>> [] OTHER -> <<"?", "">>
 TokStep(z, it) ==
     IF it.t = "NL" THEN [Flush(z) EXCEPT !.incom = FALSE]
@@ -112,6 +119,8 @@ NormStmts(s, j) ==              \* the tokenizer's statements for one abstract s
       [] s.k = "i1l" -> << <<<<"MN", "ld16">>, <<"REF", s.n>>>> >>
       [] s.k = "i1r" -> << <<<<"MN", "mov">>, <<"REG", s.n>>>> >>
       [] s.k = "i1c" -> << <<<<"MN", "ld8">>, <<"CHR", s.v>>>> >>
+      [] s.k = "brx" -> << <<<<"MN", "bra">>, <<"REF", s.n>>, <<"PLUS", "">>, <<"NUM", 1>>>> >>
+      [] s.k = "ldo" -> << <<<<"MN", "ldo">>, <<"LBR", "">>, <<"REG", "a">>, <<"PLUS", "">>, <<"NUM", 2>>, <<"RBR", "">>>> >>
       [] s.k = "str" -> << <<<<"DIR", ".cstr">>, <<"STR", 0>>>> >>
       [] s.k = "strg" -> << <<<<"DIR", ".cstr">>, <<"STRL", 0>>>> >>
       [] s.k = "cif" -> << <<<<"DIR", "#if">>, <<"SYM", "MODE">>, <<"OP", "==">>, <<"WORD", IF s.n = "eq" THEN "fast" ELSE "slow">>>>,
@@ -128,11 +137,14 @@ NormFrom(p, j) == IF j > Len(p) THEN <<>> ELSE NormStmts(p[j], j) \o NormFrom(p,
 NormProg(p) == NormFrom(p, 1)
 
 \* what P assembles to on the carrier ISA (labels are addresses; little endian 16 bit operands)
-Size(s) == CASE s.k = "lab" -> 0 [] s.k = "i0" -> 1 [] s.k = "i1l" -> 3 [] s.k = "str" -> 4 [] s.k = "strg" -> 9 [] OTHER -> 2
+Size(s) == CASE s.k = "lab" -> 0 [] s.k = "i0" -> 1 [] s.k \in {"i1l", "ldo"} -> 3 [] s.k = "str" -> 4 [] s.k = "strg" -> 9 [] OTHER -> 2
 AddrOf(p, j) == FoldLeft(LAMBDA acc, s : acc + Size(s), 0, SubSeq(p, 1, j - 1))
 LabelAddr(p, n) == LET ds == {j \in 1..Len(p) : p[j].k = "lab" /\ p[j].n = n} IN IF ds = {} THEN -1 ELSE AddrOf(p, CHOOSE j \in ds : TRUE)
-StmtBytes(p, s) ==
-    CASE s.k = "lab" -> <<>> [] s.k = "i0" -> <<234>> [] s.k = "i1n" -> <<168, s.v>>
+\* at: the statement's own address (the relative branch needs it)
+StmtBytes(p, s, at) ==
+    CASE s.k = "lab" -> <<>>
+      [] s.k = "brx" -> <<216, (LabelAddr(p, s.n) + 1 - at + 256) % 256>>
+      [] s.k = "ldo" -> <<208, 1, 2>> [] s.k = "i0" -> <<234>> [] s.k = "i1n" -> <<168, s.v>>
       [] s.k = "i1l" -> <<182, LabelAddr(p, s.n) % 256, LabelAddr(p, s.n) \div 256>>
       [] s.k = "i1r" -> <<192, IF s.n = "a" THEN 1 ELSE 2>>
       [] s.k = "i1c" -> <<168, s.v>>
@@ -143,12 +155,12 @@ StmtBytes(p, s) ==
       [] s.k = "cel" -> <<s.w, s.w>>
       [] OTHER -> <<s.v, s.w>>
 \* the local label l1 lives in the region opened by the global label g1: g1 has to come before its definition and uses
-LocalOk(p) == \A j \in 1..Len(p) : (p[j].n = "l1" /\ p[j].k \in {"lab", "i1l"}) =>
+LocalOk(p) == \A j \in 1..Len(p) : (p[j].n = "l1" /\ p[j].k \in {"lab", "i1l", "brx"}) =>
                   \E i \in 1..(j - 1) : p[i].k = "lab" /\ p[i].n = "g1"
-WellFormed(p) == /\ \A j \in 1..Len(p) : p[j].k = "i1l" => LabelAddr(p, p[j].n) >= 0
+WellFormed(p) == /\ \A j \in 1..Len(p) : p[j].k \in {"i1l", "brx"} => LabelAddr(p, p[j].n) >= 0
                  /\ LocalOk(p)
                  /\ \A i, j \in 1..Len(p) : (i # j /\ p[i].k = "lab" /\ p[j].k = "lab") => p[i].n # p[j].n
-Bytes(p) == FoldLeft(LAMBDA acc, s : acc \o StmtBytes(p, s), <<>>, p)
+Bytes(p) == FoldLeft(LAMBDA acc, s : acc \o StmtBytes(p, s, Len(acc)), <<>>, p)
 
 Init == prog = <<>> /\ sty = <<>>
 Next == /\ Len(prog) < MaxLen
